@@ -372,7 +372,13 @@ def run_case(case):
     with open(path, "w", encoding="latin-1" if latin1 else None) as fh:
         fh.write(src)
     importlib.invalidate_caches()
-    rec = {"tid": case["tid"], "overwrite": case["overwrite"], "confine": case["confine"], "failed": False, "parses": True,
+    with open(path, "rb") as fh:
+        try:
+            fh.read().decode("utf-8")
+            not_utf8 = False
+        except UnicodeDecodeError:
+            not_utf8 = True
+    rec = {"tid": case["tid"], "source_not_utf8": not_utf8, "overwrite": case["overwrite"], "confine": case["confine"], "failed": False, "parses": True,
            "erasure": True, "idempotent": True, "importable": True, "behaviour": True, "future_first": True,
            "src_imports": [], "res_imports": [], "stub_imports": [], "positions": [], "err": "", "stub": "", "res": "", "idem_delta": ""}
     try:
@@ -692,7 +698,8 @@ def signature(clause, rec, case):
         sig["second_application_adds"] = rec.get("idem_delta", "")
     if clause == "ApplyFails":
         sig["err"] = rec["err"][:80]
-        if "UnicodeDecodeError" in rec["err"] and "latin1_source" in case["features"]:
+        if "latin1_source" in case["features"] and rec.get("source_not_utf8"):
+            # (identified by the INPUT - the bytes of the source file are not UTF-8 - not by the wording of the failure)
             sig = {"clause": clause, "source_not_utf8": True}
         if ("Could not resolve a unique qualified name" in rec["err"] and "posonly_then_kwonly_params" in case["features"]
                 and "f3" in case["traced"]):
@@ -724,7 +731,7 @@ def main(pid, tier, seed, replay=None):
     records = run_cases(cases)
     by_tid = {r["tid"]: r for r in records}
     case_by = {c["tid"]: c for c in cases}
-    slim = [{k: v for k, v in r.items() if k not in ("err", "stub", "res", "res_full")} for r in records]
+    slim = [{k: v for k, v in r.items() if k not in ("err", "stub", "res", "res_full", "source_not_utf8")} for r in records]
     for r in slim:
         for it in r["src_imports"] + r["res_imports"]:
             it.pop("bound", None)
